@@ -556,6 +556,50 @@ def check_trailing_comment(run: Run) -> None:
         run.violation("R01.6", pm, "Parser.parse_section", "collect_trailing_comment after parse_value", "the reader does not collect the end-of-line comment after the value: emitted trailing comments are not read back")
 
 
+# ======================================================================================= R01.8
+def check_bare_key_children(run: Run, rule: str = "R01.8") -> None:
+    """a node without a key is written out only by code that knows it has none"""
+    run.rule(rule, "a bare-key node is emitted only by an emitter that expects one: wherever the parser builds Assignment(key=\"\") and hands it to a Block / Section / Document, the emitter function for that parent tests the child's key for emptiness before it falls back to emit_assignment (which would write a line that is just `::`, re-read as something else)", 2)
+    pm = run.project.mod("core.parser")
+    em = run.project.mod("core.emitter")
+    emitter_of = {"Block": "emit_block", "Section": "emit_section", "Document": "emit"}
+
+    def handles_bare(fname: str) -> bool:
+        fi = em.func(fname)
+        for c in walk_no_nested(fi.node):
+            if isinstance(c, ast.Compare) and len(c.ops) == 1 and isinstance(c.ops[0], (ast.Eq, ast.NotEq)) and isinstance(c.left, ast.Attribute) and c.left.attr == "key" and isinstance(c.comparators[0], ast.Constant) and c.comparators[0].value == "":
+                return True
+            if isinstance(c, ast.UnaryOp) and isinstance(c.op, ast.Not) and isinstance(c.operand, ast.Attribute) and c.operand.attr == "key":
+                return True
+        return False
+
+    n = 0
+    for q, fi in pm.functions.items():
+        for c in walk_no_nested(fi.node):
+            if not (isinstance(c, ast.Call) and isinstance(c.func, ast.Name) and c.func.id == "Assignment"):
+                continue
+            key = next((k.value for k in c.keywords if k.arg == "key"), c.args[0] if c.args else None)
+            if not (isinstance(key, ast.Constant) and key.value == ""):
+                continue
+            n += 1
+            par = getattr(c, "_parent", None)
+            lst = par.func.value.id if isinstance(par, ast.Call) and isinstance(par.func, ast.Attribute) and par.func.attr in ("append", "insert") and isinstance(par.func.value, ast.Name) else None
+            parents = set()
+            if lst is not None:
+                for k in walk_no_nested(fi.node):
+                    if isinstance(k, ast.Call) and isinstance(k.func, ast.Name) and k.func.id in emitter_of and any(isinstance(a, ast.Name) and a.id == lst for a in list(k.args) + [kw.value for kw in k.keywords]):
+                        parents.add(k.func.id)
+            if not parents:
+                raise AnalysisError(f"{q}: Assignment(key=\"\") is built but the Block / Section / Document it becomes a child of is not found in the same function; who emits it is not decided")
+            for P in sorted(parents):
+                ok = handles_bare(emitter_of[P])
+                run.instance(rule, pm.loc(c), f"{q}: a bare-key Assignment becomes a child of a {P}; {emitter_of[P]} tests the child's key for emptiness", ok=ok)
+                if not ok:
+                    run.violation(rule, pm, q, f"Assignment(key=\"\") child of {P}", f"{q} puts a bare-key Assignment (a literal zone without `KEY::`) among the children of a {P}, but {emitter_of[P]} has no branch for a child without a key: it is written through emit_assignment as a line that is just `::` followed by the fence, which the reader does not read back as that zone - the canonical text changes when it is canonicalised again")
+    if n == 0:
+        raise AnalysisError("no Assignment(key=\"\") construction found in the parser (bare literal-zone children): anchor moved")
+
+
 # ======================================================================================= R01.7
 VERBATIM_NAME_FIELDS = {"Section": ["key", "section_id"], "Block": ["key"], "Assignment": ["key"], "Document": ["name"]}
 
@@ -622,4 +666,5 @@ def check(run: Run) -> None:
     c04.check_number_lexemes(run, "R01.5", lm)
     check_trailing_comment(run)
     check_name_fields(run)
+    check_bare_key_children(run)
     run.assume("emit(parse(emit(parse(x)))) == emit(parse(x)) itself, list-layout stability (_needs_multiline vs parse_list), indentation re-reading through INDENT tokens and comment placement other than the assignment trailing comment are not decided")
